@@ -897,14 +897,23 @@ def _do_apply(pool, op, opi, o, mk_funcs, S, obs):
 def _make_injection(inj, obs):
     kind = inj['kind']
     fired = []
+    cnt = [0]
 
     def hook(S, st):
         if fired:
             return
         if kind == 'sigkill':
-            if st.role == inj['victim'] and st.points == inj['point']:
+            hit = False
+            if inj.get('when') == 'in_user':
+                # the nth scheduling point at which (any instance of) the victim is inside a task function
+                if st.role == inj['victim'] and getattr(st, 'in_user', 0):
+                    cnt[0] += 1
+                    hit = cnt[0] == inj.get('nth', 1)
+            else:
+                hit = st.role == inj['victim'] and st.points == inj['point']
+            if hit:
                 ordinal = sum(1 for t in S.threads[:S.threads.index(st) + 1] if t.role == st.role) - 1
-                if ordinal != inj.get('instance', 0):
+                if inj.get('when') != 'in_user' and ordinal != inj.get('instance', 0):
                     return
                 fired.append(1)
                 if st.held > 0:
